@@ -60,7 +60,7 @@ def tokenize(s):
     return toks
 
 
-BLOCKLIKE = ('if', 'match', 'loop', 'block')
+BLOCKLIKE = ('if', 'match', 'loop', 'while', 'block')
 
 
 class RP:
@@ -241,8 +241,16 @@ class RP:
     def expr(self, no_struct=False):
         return self.expr_assign(no_struct)
 
+    def expr_range(self, ns):
+        e = self.expr_or(ns)
+        if self.at_op('..') or self.at_op('..='):
+            op = self.eat('op')
+            hi = self.expr_or(ns)
+            return ('range', op, e, hi)
+        return e
+
     def expr_assign(self, ns):
-        lhs = self.expr_or(ns)
+        lhs = self.expr_range(ns)
         if self.at_op('=') :
             self.i += 1
             rhs = self.expr_assign(ns)
@@ -383,6 +391,14 @@ class RP:
                 sub.fail('trailing tokens in matches!')
             return ('matches', e, p, g)
         raw = ' '.join(str(x[1]) for x in inner)
+        if name in ('assert', 'assert_eq', 'debug_assert', 'debug_assert_eq'):
+            sub = RP(inner, self.what + f' {name}!')
+            args = [sub.expr()]
+            while sub.maybe('op', ','):
+                if sub.peek()[0] == 'eof' or sub.at('str'):
+                    break
+                args.append(sub.expr())
+            return ('macro', name, args, raw)
         return ('macro', name, None, raw)
 
     def block(self):
@@ -526,7 +542,20 @@ class RP:
             if v == 'loop':
                 self.i += 1
                 return ('loop', self.block())
-            if v in ('while', 'for', 'unsafe', 'break', 'continue', 'async', 'move'):
+            if v == 'while':
+                self.i += 1
+                if self.at_id('let'):
+                    self.fail('while let')
+                cond = self.expr(no_struct=True)
+                return ('while', cond, self.block())
+            if v == 'break':
+                self.i += 1
+                if self.at('life'):
+                    self.fail('labelled break')
+                if self.at_op(';') or self.at_op('}') or self.at_op(','):
+                    return ('break', None)
+                return ('break', self.expr())
+            if v in ('for', 'unsafe', 'continue', 'async', 'move'):
                 self.fail(f'`{v}` is outside the translated subset')
             if v == 'return':
                 self.i += 1
